@@ -13,7 +13,7 @@
    for which the statements below hold trivially. *)
 From Coq Require Import Arith List Bool.
 Import ListNotations.
-From Cffi Require Import C21.Model C21.Proofs.
+From Cffi Require Import C21.Gen C21.Model C21.Proofs.
 
 (* a destructor (ffi.gc callback or allocator free) runs at most once per wrapper *)
 Theorem C21_destructor_at_most_once : forall ops i, calls (get (run ops) i) <= 1.
@@ -84,6 +84,21 @@ Theorem C21_source_unlocked_when_no_view : forall ops src,
   exists f, k (get s f) = KFromBuf src true /\ alive (get s f) = true /\ released (get s f) = false.
 Proof. exact source_unlocked_when_no_view. Qed.
 Print Assumptions C21_source_unlocked_when_no_view.
+
+(* a from_buffer call that FAILS (buffer too small for a fixed-length array type, not a buffer,
+   read-only buffer with require_writable, ...) leaves the object table unchanged: no export, no
+   reference, nothing created.  [path_leaks] is computed from the regenerated table of the error
+   paths of direct_from_buffer (C21/Gen.v): which `goto errorN` each failure takes, whether it is
+   taken after PyObject_GetBuffer succeeded, and whether that label calls PyBuffer_Release.
+   The first theorem is the regenerated obligation itself. *)
+Theorem C21_frombuf_error_paths_release :
+  forallb (fun p => implb (snd (fst p)) (snd p)) gen_frombuf_paths = true.
+Proof. exact frombuf_paths_release. Qed.
+Print Assumptions C21_frombuf_error_paths_release.
+
+Theorem C21_failed_from_buffer_is_pure : forall s src tag, step s (OFromBufferFail src tag) = s.
+Proof. exact failed_from_buffer_is_pure. Qed.
+Print Assumptions C21_failed_from_buffer_is_pure.
 
 (* ffi.new("struct *"): while p is alive or p[0] is held, the struct object is alive (its memory
    is part of it); with a custom allocator, as long as it was not explicitly released, free has
